@@ -55,6 +55,17 @@ def switch(target_handle: Handle[World], clear_current=False, clear_next=False,
     if from_world is None:
         from_world = desper.default_loop.current_world
 
+    # Clear the target handle here, before loading it, so that the
+    # events reach the world instance that is going to be executed.
+    # If the target is the handle of the world being left, both flags
+    # mean that a fresh instance of it shall be entered.
+    self_switch = target_handle.cached and target_handle() is from_world
+    if clear_next or (clear_current and self_switch):
+        target_handle.clear()
+        clear_next = False
+        if self_switch:
+            clear_current = False
+
     to_world = target_handle()
 
     if from_world is not None:
